@@ -818,6 +818,31 @@ def r20_fold(text, acc_type=None):
                        % (ind, ty, init, ind, item, x, ind, acc, ind, pre, ind, result, ind, ind, pat))
                 text = text[:m.start()] + new + rest
                 n += 1
+    # form C: let PAT = X .into_iter() .map(|ITEM| { MBODY }) .fold(INIT, |ACC, ITEM2| { FBODY });
+    m = re.search(r'([ \t]*)let (\([^=]*?\)|%s) =\s*([A-Za-z_][A-Za-z0-9_]*(?:\s*\.[A-Za-z_][A-Za-z0-9_]*)*?)\s*\.into_iter\(\)\s*\.map\(\|(\([^|]*?\)|%s)\| \{' % (IDENT, IDENT), text)
+    if m:
+        ind, pat, x, item = m.groups()
+        x = re.sub(r'\s+', '', x)
+        o = m.end() - 1
+        c = _balanced(text, o, '{', '}')
+        mbody = text[o:c + 1]
+        fm = re.match(r'\)\s*\.fold\(', text[c + 1:])
+        if fm:
+            fo = c + 1 + fm.end() - 1
+            fc = _balanced(text, fo)
+            rest = text[fc + 1:]
+            if rest.lstrip().startswith(';'):
+                args = _split_top(text[fo + 1:fc])
+                init = args[0].strip()
+                clo = ','.join(args[1:]).strip().rstrip(',').strip()
+                mm = re.match(r'\|(\([^|]*?\)|%s), (\([^|]*?\)|%s)\| \{(.*)\}$' % (IDENT, IDENT), clo, re.S)
+                if mm:
+                    acc, item2, fbody = mm.group(1), mm.group(2), mm.group(3).strip()
+                    ty = (': ' + acc_type) if acc_type else ''
+                    new = ('%slet mut vt_acc%s = %s;\n%sfor %s in %s {\n%s    let vt_m = %s;\n%s    let %s = vt_acc;\n%s    let %s = vt_m;\n%s    vt_acc = %s;\n%s}\n%slet %s = vt_acc'
+                           % (ind, ty, init, ind, item, x, ind, mbody, ind, acc, ind, item2, ind, fbody, ind, ind, pat))
+                    text = text[:m.start()] + new + rest
+                    n += 1
     return text, n
 
 
@@ -1138,3 +1163,52 @@ def r24_string_add_chain(text):
         text = text[:j] + acc + text[k:]
         pos = j + len(acc)
     return text, n
+
+
+@rule('R32')
+def r32_zip_map_sum(text):
+    """STMT( A .iter() .zip(B.iter()) .map(|(P, T)| EXPR) .sum::<usize>() )   ->
+         let vt_sum = { let mut vt_acc: usize = 0; for vt_i in 0..vt_min(A.len(), B.len()) { let (P, T) = (&A[vt_i], &B[vt_i]); vt_acc = vt_acc + EXPR; } vt_acc };
+         STMT( vt_sum )
+    (definition of zip + map + sum; the sum is hoisted in front of the statement it occurs in: everything evaluated before
+    it in that statement must be a constructor / plain variable, which is checked)"""
+    m = re.search(r'\b(%s)\s*\.iter\(\)\s*\.zip\((%s)\.iter\(\)\)\s*\.map\(\|\((%s), (%s)\)\| ' % (IDENT, IDENT, IDENT, IDENT), text)
+    if not m:
+        return text, 0
+    a, b, p, t = m.groups()
+    k = m.end()
+    d = 0
+    while k < len(text):
+        ch = text[k]
+        if ch in '([{':
+            d += 1
+        elif ch in ')]}':
+            if d == 0:
+                break
+            d -= 1
+        k += 1
+    expr = text[m.end():k].strip()
+    tail = re.match(r'\)\s*\.sum::<usize>\(\)', text[k:])
+    if not tail:
+        return text, 0
+    end = k + tail.end()
+    # statement start: the line on which the enclosing statement begins
+    j = m.start()
+    d = 0
+    while j > 0:
+        ch = text[j - 1]
+        if ch in ')]':
+            d += 1
+        elif ch in '([':
+            d -= 1
+        elif ch in ';{}' and d <= 0:
+            break
+        j -= 1
+    prefix = text[j:m.start()]
+    if not re.fullmatch(r'\s*(?:Ok\(|Some\(|return |let %s = )?\s*' % IDENT, prefix):
+        return text, 0
+    ind = _indent_of(text, m.start() - len(prefix.lstrip()) if prefix.strip() else m.start())
+    lead = prefix[:len(prefix) - len(prefix.lstrip())]
+    hoist = ('%slet vt_sum = { let mut vt_acc: usize = 0; for vt_i in 0..vt_min(%s.len(), %s.len()) { let (%s, %s) = (&%s[vt_i], &%s[vt_i]); vt_acc = vt_acc + %s; } vt_acc };'
+             % (lead, a, b, p, t, a, b, expr))
+    return text[:j] + hoist + prefix + 'vt_sum' + text[end:], 1
